@@ -5,10 +5,16 @@
 #   selftest.sh [--full] [name-pattern]
 #
 # default (fast, ~10 s per edit): translator + Coq build of the generated files, the equivalence
-#   proofs and the twin theorems in a scratch copy of coq/{Base,Revision,Formation,MDM};
+#   proofs and the twin theorems in a scratch copy of coq/{Base,Revision,Formation,MDM} and of the
+#   Build part of coq/Contracts (edits of host/contracts/update.go: group "build" only) and of coq/Query
+#   (edits of persist/sqlite/contracts.go: group "query" only) and coq/Funding (persist/sqlite/accounts.go: "funding");
+#   SELFTEST_SCR chooses the scratch directory (two fast runs at a time need two);
+#   SELFTEST_WT / SELFTEST_TAG choose the scratch worktree and the run tag of --full;
 #   b* must raise an alarm (translator hard error or broken equivalence), h* must stay quiet.
 # --full (~1-2 min per edit): the real thing, `VERIF_REPO=<worktree> python3 tools/check.py C07|C12`
-#   (C07 for edits of rhp/contracts.go, C12 for rhp/v2 and rhp/v3 contracts.go, C14 for rhp/v3/execute.go); b* must print VIOLATION and
+#   (C07 for edits of rhp/contracts.go, C12 for rhp/v2 and rhp/v3 contracts.go, C14 for rhp/v3/execute.go,
+#   C01 for host/contracts/update.go, C19 for persist/sqlite/contracts.go, C11 for persist/sqlite/accounts.go);
+#   b* must print VIOLATION and
 #   exit 1, h* must exit 0.  Do not run --full while someone else checks C07/C12: the generated
 #   files in coq/ are shared.
 set -u
@@ -16,24 +22,30 @@ export GOPROXY=off GOSUMDB=off GOTOOLCHAIN=local GOFLAGS=
 VERIF=$(cd "$(dirname "$0")/../.." && pwd)
 TESTS=$VERIF/tools/go2coq/tests
 WT=${SELFTEST_WT:-/tmp/wt-t1}
+TAG=${SELFTEST_TAG:--t1}
 FULL=0; PAT=""
 for a in "$@"; do case $a in --full) FULL=1;; *) PAT=$a;; esac; done
-G2C="go run $VERIF/tools/go2coq/main.go $VERIF/tools/go2coq/tables.go $VERIF/tools/go2coq/expr.go $VERIF/tools/go2coq/stmt.go"
+G2C="go run $VERIF/tools/go2coq/main.go $VERIF/tools/go2coq/tables.go $VERIF/tools/go2coq/expr.go $VERIF/tools/go2coq/stmt.go $VERIF/tools/go2coq/imp.go $VERIF/tools/go2coq/build.go $VERIF/tools/go2coq/filter.go $VERIF/tools/go2coq/dist.go"
+# the part of coq/Contracts the generated BuildGen.v and its equivalence proof need (fast mode)
+BUILDFILES="Model.v Chain.v Build.v BuildProofs.v gen/BuildPrelude.v gen/BuildGen.v BuildGenEquiv.v Props_C01_BuildGen.v"
 
 [ -d "$WT" ] || git -C /repo worktree add "$WT" HEAD >/dev/null 2>&1 || { echo "cannot create $WT"; exit 2; }
 git -C "$WT" checkout -q . 
 
-SCR=/tmp/go2coq-selftest
+SCR=${SELFTEST_SCR:-/tmp/go2coq-selftest}
 if [ $FULL = 0 ]; then
   rm -rf $SCR; mkdir -p $SCR/coq
-  for g in Base Revision Formation MDM; do
+  for g in Base Revision Formation MDM Query Funding; do
     mkdir -p $SCR/coq/$g; (cd $VERIF/coq/$g && cp -r *.v _CoqProject $SCR/coq/$g/ && [ -d gen ] && cp -r gen $SCR/coq/$g/ || true)
   done
+  mkdir -p $SCR/coq/Contracts/gen
+  (cd $VERIF/coq/Contracts && for f in $BUILDFILES; do cp $f $SCR/coq/Contracts/$f; done)
+  { echo "-Q ../Base HostdBase"; echo "-Q . HostdContracts"; for f in $BUILDFILES; do echo $f; done; } > $SCR/coq/Contracts/_CoqProject
   (cd $SCR/coq/Base && coq_makefile -f _CoqProject -o Makefile.coq >/dev/null 2>&1 && timeout 600 make -f Makefile.coq -j8 >/dev/null 2>&1)
 fi
 
-build_scratch() {  # build Revision and Formation in the scratch copy; prints the first error
-  for g in Revision Formation MDM; do
+build_scratch() {  # build the given groups in the scratch copy; prints the first error
+  for g in "$@"; do
     (cd $SCR/coq/$g && coq_makefile -f _CoqProject -o Makefile.coq >/dev/null 2>&1 && timeout 900 make -f Makefile.coq -j8 2>&1 | grep -A3 "^File\|Error" | head -8) > $SCR/build-$g.log
     [ -s $SCR/build-$g.log ] && { echo "coq/$g: $(tr '\n' ' ' < $SCR/build-$g.log | cut -c1-260)"; return 1; }
   done
@@ -53,15 +65,22 @@ for d in $TESTS/*.diff; do
     grep -q "^+++ b/rhp/contracts.go" $d && props="C07"
     grep -q "^+++ b/rhp/v[23]/contracts.go" $d && props="$props C12"
     grep -q "^+++ b/rhp/v3/execute.go" $d && props="$props C14"
+    grep -q "^+++ b/host/contracts/update.go" $d && props="$props C01"
+    grep -q "^+++ b/persist/sqlite/contracts.go" $d && props="$props C19"
+    grep -q "^+++ b/persist/sqlite/accounts.go" $d && props="$props C11"
     got=quiet; how=""
     for p in $props; do
-      out=$(cd $VERIF && VERIF_REPO=$WT VERIF_RUNTAG=-t1 VERIF_NO_EVIDENCE=1 python3 tools/check.py $p 2>&1); rc=$?
+      out=$(cd $VERIF && VERIF_REPO=$WT VERIF_RUNTAG=$TAG VERIF_NO_EVIDENCE=1 python3 tools/check.py $p 2>&1); rc=$?
       if [ $rc != 0 ]; then got=alarm; how="$how $p: $(echo "$out" | grep -c '^VIOLATION') VIOLATION line(s), $(echo "$out" | grep '^VIOLATION' | grep -vc no-failing-input) with a failing input;"; fi
     done
   else
     got=quiet; how=""
-    out=$(cd $SCR && VERIF_REPO=$WT $G2C -root $SCR 2>&1) || { got=alarm; how="translator: $(echo "$out" | grep 'ERROR' | head -1)"; }
-    if [ $got = quiet ]; then how=$(build_scratch) || got=alarm; fi
+    only="revision,formation,mdm"; groups="Revision Formation MDM"
+    if grep -q "^+++ b/host/contracts/update.go" $d; then only="build"; groups="Contracts"; fi
+    if grep -q "^+++ b/persist/sqlite/contracts.go" $d; then only="query"; groups="Query"; fi
+    if grep -q "^+++ b/persist/sqlite/accounts.go" $d; then only="funding"; groups="Funding"; fi
+    out=$(cd $SCR && VERIF_REPO=$WT $G2C -root $SCR -only $only 2>&1) || { got=alarm; how="translator: $(echo "$out" | grep 'ERROR' | head -1)"; }
+    if [ $got = quiet ]; then how=$(build_scratch $groups) || got=alarm; fi
   fi
   if [ $got = $want ]; then echo "ok   $n: $got ($exp) $how"; pass=$((pass+1)); else echo "FAIL $n: $got, expected $want ($exp) $how"; failn=$((failn+1)); fi
 done
